@@ -2,7 +2,7 @@
    Only ExtrOcamlBasic's directives are used; N, Z, positive and nat stay
    extracted datatypes.  Run coqc on this file from /verif/ocaml. *)
 From Coq Require Extraction ExtrOcamlBasic.
-From NTRIP Require Import Base Bits Crc Time Classify Frame FrameSpec TimeSpec History.
+From NTRIP Require Import Base Bits Crc Time Classify Frame FrameSpec TimeSpec History Msm MsmSpec Station.
 Extraction Language OCaml.
 Extraction "model.ml"
   bytes_okb slice
@@ -13,4 +13,6 @@ Extraction "model.ml"
   msm4b msm7b msmb constellation_code
   get_len_type check_crc get_message fetch handle_stream
   valid_frameb frame_type wf_segsb flatten merge_junk expected
-  week_start enc event_frame admissibleb answer run_frames run_history report_ok msm_time_frame frame_of_payload.
+  week_start enc event_frame admissibleb answer run_frames run_history report_ok msm_time_frame frame_of_payload
+  decode_msm4 decode_msm7 decode1005 decode1006 msm_frame view wf_amsm payload_bytes msm_bits
+  station_frame wf_station station_bits.
